@@ -1287,4 +1287,7 @@ META = {
                      "dependency specs: iter/next/list/len on iterators, StopIteration.value, the async iterator protocol (__anext__/StopAsyncIteration)"],
 }
 
-from contracts import c07_emit as _e; TASKS = list(TASKS) + _e.TASKS
+try:  # compiler-side half (c07_emit.py); a failure to load it must not take the runtime half down
+    from contracts import c07_emit as _e; TASKS = list(TASKS) + list(_e.TASKS)
+except Exception as _ex:  # noqa
+    import sys as _sys; print(f"contracts.c07_emit not loaded: {_ex!r}", file=_sys.stderr)
